@@ -21,7 +21,11 @@ class C15Check(ExplainerCheck):
         rng = seeds.run_rng(seed, self.prop, tier, run_index)
         nk = NAME_KINDS[run_index % 4]
         stratum = (run_index // 4) % 6
-        if stratum in (0, 1):
+        if run_index % 40 == 29:
+            from .plan import gen_long_interval_plan
+            plan = gen_long_interval_plan(rng, self.prop, names_kind=nk)
+            cfg = plan["config"]
+        elif stratum in (0, 1):
             plan = gen_batch_plan(rng, self.prop, names_kind=nk, classes=["batch"] if stratum == 0 else ["interval"])
             cfg = plan["config"]
         else:
